@@ -117,7 +117,8 @@ func (o *packetScanCmdOpts) getScanRange(dstSubnet *net.IPNet) (*scan.Range, err
 	if o.srcIP != nil {
 		srcIP = o.srcIP
 	}
-	if srcIP == nil {
+	// only IPv4 is supported, never send packets with an empty source address
+	if srcIP = srcIP.To4(); srcIP == nil {
 		return nil, errSrcIP
 	}
 
@@ -129,7 +130,7 @@ func (o *packetScanCmdOpts) getScanRange(dstSubnet *net.IPNet) (*scan.Range, err
 	return &scan.Range{
 		Interface: iface,
 		DstSubnet: dstSubnet,
-		SrcIP:     srcIP.To4(),
+		SrcIP:     srcIP,
 		SrcMAC:    srcMAC}, nil
 }
 
